@@ -25,6 +25,8 @@ func main() {
 		os.Exit(cmdCheck(os.Args[2:]))
 	case "explain":
 		os.Exit(cmdExplain(os.Args[2:]))
+	case "selftest":
+		os.Exit(cmdSelftest(os.Args[2:]))
 	case "funcs":
 		p := mustLoad("/repo")
 		for _, f := range p.Funcs {
@@ -111,6 +113,7 @@ func cmdCheck(args []string) (code int) {
 	prop := fs.String("prop", "", "property id")
 	tier := fs.String("tier", "quick", "quick|thorough")
 	noEv := fs.Bool("no-evidence", false, "do not write the evidence file")
+	noReplay := fs.Bool("no-replay", false, "do not write replay files (used when analysing scratch variants)")
 	dbg := fs.Bool("debug", false, "")
 	fs.Parse(args)
 	debugLoadField = *dbg
@@ -136,8 +139,40 @@ func cmdCheck(args []string) (code int) {
 	if err != nil {
 		return failClosed(err.Error())
 	}
+	tierDeep = *tier == "thorough"
 	c := NewCtx(p, *prop, *tier)
+	c.NoReplay = *noReplay
 	def.Rules(c)
+	if *tier == "thorough" {
+		// (1) the other word size: the same rules over the GOARCH=386 build of the tree
+		if p386, err := loadProgram(*repo, "386"); err != nil {
+			c.Rule("arch")
+			c.Unresolved("GOARCH=386", "the tree does not load for GOARCH=386: "+err.Error())
+		} else {
+			c2 := NewCtx(p386, *prop, *tier)
+			def.Rules(c2)
+			n := 0
+			for _, o := range c2.Obs {
+				n++
+				if !o.OK {
+					o.Construct += "@386"
+					c.Obs = append(c.Obs, o)
+				}
+			}
+			c.Extra("goarch_386", map[string]any{"obligations": n, "note": "all rules re-run on the GOARCH=386 build; only failing obligations are merged (suffix @386)"})
+		}
+		// (2) validation of the checker itself against the corpus (never changes the verdict about /repo)
+		rs := runCorpus(*repo, *verif, *prop, 8)
+		var problems []corpusResult
+		for _, r := range rs {
+			if r.Outcome == "MISSED" || r.Outcome == "FALSE-ALARM" {
+				problems = append(problems, r)
+				fmt.Printf("checker-validation: %s %s %s %s\n", r.Outcome, r.Entry, r.Prop, r.Detail)
+			}
+		}
+		c.Extra("checker_validation", map[string]any{"variants": len(rs), "tally": tally(rs), "problems": problems,
+			"note": "must-fire mutants / seeded adversarial changes and must-stay-silent refactorings, each analysed in a scratch copy of /repo"})
+	}
 	return c.finish(*verif, def.Info, start, !*noEv)
 }
 
